@@ -126,6 +126,9 @@ class World:
         self.ctx = ctx
         self.inject = True
         self.fault_classes = FAULTS
+        # the class of a fault is observable only through `except` clauses: when the code under verification contains no
+        # `try` statement one class suffices (set by the contract module from the AST of the functions it verifies)
+        self.handlers_in_scope = True
         self.faults = []      # sites at which a fault was injected on this path (at most one)
         self.refusals = []    # sites that raised because a value cannot be serialised
         self.sites = []       # every may-fault site passed, in order
@@ -151,7 +154,7 @@ def raise_fault(ctx, site, why="fault", injected=True):
     injected=False: not a write failure but a value that cannot be serialised (recorded separately)."""
     w = world(ctx)
     (w.faults if injected else w.refusals).append(site)
-    cls = w.fault_classes
+    cls = w.fault_classes if w.handlers_in_scope else w.fault_classes[:1]
     for c in cls[:-1]:
         if ctx.branch(ctx.fresh(f"fault_class_is_{c.__mro__[1].__name__}", "bool").t):
             raise RaiseSig(c(f"{why} at {site}"))
@@ -574,11 +577,8 @@ class WalkGen(GhostGen):
         self.FNAME = z3.Function(f"{n}_fname", INT, INT, STR)
         self.FLAT = z3.Function(f"{n}_flat", INT, STR)
         self.meta = z3.Int(f"{n}_meta")
-        k, j = z3.Int(f"{n}_k"), z3.Int(f"{n}_j")
-        ctx.assume(z3.And(self.N >= 1, self.PRE(0) == 0, self.DIRPATH(0) == self.top))
-        ctx.assume(z3.ForAll([k, j], z3.Implies(z3.And(k >= 0, k < self.N, j >= 0, j < self.PRE(k + 1) - self.PRE(k)),
-                                                  self.FLAT(self.PRE(k) + j) == JOIN(self.DIRPATH(k), self.FNAME(k, j))),
-                             patterns=[JOIN(self.DIRPATH(k), self.FNAME(k, j))]))
+        # N >= 1 directories, `top` first; the files of the first directory are among all files (PRE is non-decreasing)
+        ctx.assume(z3.And(self.N >= 1, self.PRE(0) == 0, self.DIRPATH(0) == self.top, self.PRE(1) <= self.PRE(self.N)))
         # which group tree (if any) lives under `top`, and its modification stamp when the enumeration was taken
         self.group = None
         for g in w.roots:
@@ -604,7 +604,15 @@ class WalkGen(GhostGen):
             kt = lift(k)
             nf = self.PRE(kt + 1) - self.PRE(kt)
             ctx.assume(nf >= 0)
-            files = V.SymArr((Sym(nf),), lambda j: Sym(self.FNAME(kt, lift(j))), "str", pylist=True)
+
+            def fname(j):
+                jt = lift(j)
+                # definition of the flattened enumeration at this position (ground instance; FLAT is otherwise unconstrained)
+                ctx.assume(z3.Implies(z3.And(kt >= 0, kt < self.N, jt >= 0, jt < nf),
+                                      self.FLAT(self.PRE(kt) + jt) == JOIN(self.DIRPATH(kt), self.FNAME(kt, jt))))
+                return Sym(self.FNAME(kt, jt))
+
+            files = V.SymArr((Sym(nf),), fname, "str", pylist=True)
             return (Sym(self.DIRPATH(kt)), Opaque("dirnames"), files)
 
         return Sym(self.N), getter
